@@ -359,7 +359,8 @@ package value
 // ---- remaining members: safety (C10) ----
 
 // every method registered in a class model is a non-nil function
-//@ typeinv ClassModel (forall k string :: has(self.methodList, k) ==> self.methodList[k] != nil) && (forall k string :: has(self.compPropList, k) ==> self.compPropList[k] != nil)
+//@ pred cmWF(cm *ClassModel) = (forall k string :: has(cm.methodList, k) ==> cm.methodList[k] != nil) && (forall k string :: has(cm.compPropList, k) ==> cm.compPropList[k] != nil)
+//@ typeinv ClassModel cmWF(self)
 
 //@ external (*regexp.Regexp).FindStringSubmatch(re, s) (m)
 //@   pure
@@ -405,7 +406,7 @@ package value
 
 //@ func NewClassModel
 //@   modifies nothing
-//@   ensures fresh(result) && result != nil
+//@   ensures fresh(result) && result != nil && cmWF(result)
 
 //@ func NewArrayIV
 //@   requires okElem(root)
@@ -421,19 +422,19 @@ package value
 //@   ensures fresh(result) && result != nil && result.reduceType == IVTypeMember && result.root == root && result.member == member
 
 //@ method (*ClassModel).DefineProperty
-//@   requires okElem(defaultValue)
+//@   requires okElem(defaultValue) && cmWF(cm)
 //@   modifies map(cm.propList)
 //@   ensures result == cm
 //@ method (*ClassModel).DefineMethod
-//@   requires methodFunc != nil
+//@   requires methodFunc != nil && cmWF(cm)
 //@   modifies map(cm.methodList)
 //@   ensures result == cm
 //@ method (*ClassModel).DefineCompProperty
-//@   requires compFunc != nil
+//@   requires compFunc != nil && cmWF(cm)
 //@   modifies map(cm.compPropList)
 //@   ensures result == cm
 //@ method (*ClassModel).SetConstructor
-//@   requires fn != nil
+//@   requires fn != nil && cmWF(cm)
 //@   modifies cm.constructor
 //@   ensures result == cm && cm.constructor == fn
 
